@@ -302,6 +302,9 @@ type step struct {
 	Level int           `json:"level,omitempty"`
 	Group string        `json:"group,omitempty"`
 	N     int           `json:"n,omitempty"`
+	// Reuse (req): > 0 = the transaction carries the id of the Reuse-th request before it (the interceptors re-send
+	// x-lunar-req-id on a retry and the proxy takes the transaction id from it); it is a request like any other
+	Reuse int `json:"reuses_id_of_request_before,omitempty"`
 }
 
 func genSteps(c config) *rapid.Generator[[]step] {
@@ -328,8 +331,12 @@ func genSteps(c config) *rapid.Generator[[]step] {
 					Group: rapid.SampledFrom(groupValues).Draw(t, "egroup"),
 					D:     rapid.SampledFrom([]time.Duration{0, 0, -1, 1, -time.Millisecond, time.Millisecond}).Draw(t, "delta")})
 			default:
-				out = append(out, step{Op: "req", Level: rapid.IntRange(0, len(c.Nodes)-1).Draw(t, "level"),
-					Group: rapid.SampledFrom(groupValues).Draw(t, "group")})
+				st := step{Op: "req", Level: rapid.IntRange(0, len(c.Nodes)-1).Draw(t, "level"),
+					Group: rapid.SampledFrom(groupValues).Draw(t, "group")}
+				if rapid.IntRange(0, 5).Draw(t, "reuse") == 0 {
+					st.Reuse = rapid.IntRange(1, 4).Draw(t, "which")
+				}
+				out = append(out, st)
 			}
 		}
 		if rapid.IntRange(0, 2).Draw(t, "burst") == 0 {
@@ -400,6 +407,7 @@ func runHistory(h hist) (nontrivial bool, classes []string, err error) {
 	why := []string{"", ""}
 	refusals, boundary := 0, 0
 	id := 0
+	issued := []string{}
 	for si, st := range h.Steps {
 		switch st.Op {
 		case "metrics":
@@ -425,7 +433,12 @@ func runHistory(h hist) (nontrivial bool, classes []string, err error) {
 		case "req":
 			id++
 			now := clk.Now()
-			res := engine.RunRequest(s, txn(fmt.Sprintf("r%d", id), st.Level, st.Group, now))
+			txid := fmt.Sprintf("r%d", id)
+			if st.Reuse > 0 && len(issued) >= st.Reuse {
+				txid = issued[len(issued)-st.Reuse]
+			}
+			issued = append(issued, txid)
+			res := engine.RunRequest(s, txn(txid, st.Level, st.Group, now))
 			if res.Err != nil {
 				return false, nil, fmt.Errorf("step %d: ExecuteFlow error: %v", si, res.Err)
 			}
